@@ -214,6 +214,47 @@ static int fail_now(fault_t *f, int fd, const char *name, const char **note)
 	return 0;
 }
 
+// The tool's standard input and output may be real pipes to the driver, whose
+// pace is not ours to decide. To keep every run a function of its plan, the
+// simulated pipe never makes the tool wait on its own: an un-faulted read
+// delivers the full count unless the end of the stream comes first, an
+// un-faulted write always takes everything (EAGAIN from the real pipe is
+// waited out here), and an un-faulted poll returns "ready". Short counts,
+// EAGAIN and timeouts happen exactly where the plan injects them.
+static int is_std_pipe(int fd, int role)
+{
+	if (role != R_STDIN && role != R_STDOUT) return 0;
+	struct stat st;
+	return __real_fstat(fd, &st) == 0 && S_ISFIFO(st.st_mode);
+}
+
+static ssize_t pipe_read(int fd, int role, void *buf, size_t want)
+{
+	if (!is_std_pipe(fd, role)) return __real_read(fd, buf, want);
+	size_t done = 0;
+	while (done < want) {
+		ssize_t r = __real_read(fd, (char *)buf + done, want - done);
+		if (r > 0) { done += (size_t)r; continue; }
+		if (r == 0) break;
+		if (errno == EAGAIN || errno == EINTR) { struct pollfd p = { fd, POLLIN, 0 }; (void)__real_poll(&p, 1, -1); continue; }
+		return done ? (ssize_t)done : -1;
+	}
+	return (ssize_t)done;
+}
+
+static ssize_t pipe_write(int fd, int role, const void *buf, size_t want)
+{
+	if (!is_std_pipe(fd, role)) return __real_write(fd, buf, want);
+	size_t done = 0;
+	while (done < want) {
+		ssize_t r = __real_write(fd, (const char *)buf + done, want - done);
+		if (r >= 0) { done += (size_t)r; continue; }
+		if (errno == EAGAIN || errno == EINTR) { struct pollfd p = { fd, POLLOUT, 0 }; (void)__real_poll(&p, 1, -1); continue; }
+		return done ? (ssize_t)done : -1;
+	}
+	return (ssize_t)done;
+}
+
 ssize_t __wrap_read(int fd, void *buf, size_t n)
 {
 	const char *note; int role = role_of(fd);
@@ -223,7 +264,7 @@ ssize_t __wrap_read(int fd, void *buf, size_t n)
 	else {
 		size_t want = n;
 		if (f && !strcmp(f->act, "short") && n >= 2) { want = (size_t)f->arg; if (want < 1) want = 1; if (want >= n) want = n - 1; note = " FAULT:short"; }
-		r = __real_read(fd, buf, want);
+		r = pipe_read(fd, role, buf, want);
 	}
 	int e = errno;
 	out("%ld read %s %d %zu -> %zd %d%s\n", evno, role_names[role], fd, n, r, r < 0 ? e : 0, note);
@@ -243,7 +284,7 @@ ssize_t __wrap_write(int fd, const void *buf, size_t n)
 	} else {
 		size_t want = n;
 		if (f && !strcmp(f->act, "short") && n >= 2) { want = (size_t)f->arg; if (want < 1) want = 1; if (want >= n) want = n - 1; note = " FAULT:short"; }
-		r = __real_write(fd, buf, want);
+		r = pipe_write(fd, role, buf, want);
 	}
 	int e = errno;
 	out("%ld write %s %d %zu -> %zd %d%s\n", evno, role_names[role], fd, n, r, r < 0 ? e : 0, note);
@@ -409,7 +450,11 @@ int __wrap_poll(struct pollfd *fds, nfds_t n, int timeout)
 	int r;
 	if (fail_now(f, n > 0 ? fds[0].fd : -1, "poll", &note)) r = -1;
 	else if (f && !strcmp(f->act, "timeout") && timeout >= 0) { for (nfds_t i = 0; i < n; ++i) fds[i].revents = 0; r = 0; note = " FAULT:timeout"; if (sim_active()) sim_advance_ns((uint64_t)timeout * 1000000ull); }
-	else r = __real_poll(fds, n, timeout);
+	else {
+		// (see is_std_pipe) never a real timeout: wait until the real pipe is ready
+		int std = n > 0 && is_std_pipe(fds[0].fd, role);
+		r = __real_poll(fds, n, std ? -1 : timeout);
+	}
 	int e = errno;
 	out("%ld poll %s %d timeout=%d -> %d %d%s\n", evno, role_names[role], n > 0 ? fds[0].fd : -1, timeout, r, r < 0 ? e : 0, note);
 	errno = e;
